@@ -1,7 +1,11 @@
 import ThruVerif.Basic.Bytes
 /-!
 Byte-level path model (Unix): Go strings are byte strings, `/` = 47, `\` = 92, `.` = 46.
-`validateRelPath` follows internal/transfer/manifestproto.go.
+`clean` is the element-stack formulation of Go's `filepath.Clean` (drop empty and `.` elements; `..`
+pops a non-`..` element, is dropped at the root of a rooted path, is kept otherwise); `join` is
+`filepath.Join`. `validateRelPath`, `validateFilename`, `validateManifest` follow internal/transfer.
+`recvEffects` lists every path `RecvManifestMultiStream` hands to MkdirAll / OpenFile / Truncate /
+ReadFile / WriteFile / Rename / Remove.
 -/
 namespace TV.Path
 open TV
@@ -10,17 +14,23 @@ def slash : UInt8 := 47
 def bslash : UInt8 := 92
 def dot : UInt8 := 46
 
-/-- split on a separator predicate, keeping empty segments -/
-def splitOn (p : UInt8 → Bool) : Bytes → List Bytes
-  | [] => [[]]
-  | b :: bs =>
-    match splitOn p bs with
-    | [] => [[]]            -- unreachable
-    | s :: ss => if p b then [] :: s :: ss else (b :: s) :: ss
+/-- first element of the split on a separator predicate -/
+def hd (p : UInt8 → Bool) : Bytes → Bytes
+  | [] => []
+  | b :: bs => if p b then [] else b :: hd p bs
+
+/-- remaining elements of the split -/
+def tl (p : UInt8 → Bool) : Bytes → List Bytes
+  | [] => []
+  | b :: bs => if p b then hd p bs :: tl p bs else tl p bs
+
+/-- split on a separator predicate, keeping empty segments (`strings.Split` on one-byte separators) -/
+def splitOn (p : UInt8 → Bool) (l : Bytes) : List Bytes := hd p l :: tl p l
 
 def isSep2 (b : UInt8) : Bool := b == slash || b == bslash
 def isSlash (b : UInt8) : Bool := b == slash
 
+def dotSeg : Bytes := [dot]
 def dotdot : Bytes := [dot, dot]
 
 /-- some element (split on `/` or `\`) equals `..` -/
@@ -37,5 +47,180 @@ def validateRelPath (maxLen : Nat) (p : Bytes) : Option PathErr :=
   else if isAbs p then some .invalid
   else if p = [] then some .invalid
   else none
+
+/-- `validateFilename`: a single path element -/
+def validateFilename (maxLen : Nat) (p : Bytes) : Option PathErr :=
+  if p = [] then some .invalid
+  else if p.any isSep2 then some .invalid
+  else if p = dotSeg ∨ p = dotdot then some .invalid
+  else if p.length > maxLen then some .tooLong
+  else none
+
+/-! ### Clean / Join on element stacks -/
+
+def segs (p : Bytes) : List Bytes := splitOn isSlash p
+
+/-- one step of `Clean` on the element stack -/
+def push (rooted : Bool) (stk : List Bytes) (s : Bytes) : List Bytes :=
+  if s = [] ∨ s = dotSeg then stk
+  else if s = dotdot then
+    match stk.getLast? with
+    | some t => if t = dotdot then stk ++ [dotdot] else stk.dropLast
+    | none => if rooted then stk else stk ++ [dotdot]
+  else stk ++ [s]
+
+def pushAll (rooted : Bool) (stk : List Bytes) (ss : List Bytes) : List Bytes := ss.foldl (push rooted) stk
+
+def stack (p : Bytes) : List Bytes := pushAll (isAbs p) [] (segs p)
+
+def intercalate : List Bytes → Bytes
+  | [] => []
+  | [s] => s
+  | s :: ss => s ++ slash :: intercalate ss
+
+def render (rooted : Bool) (stk : List Bytes) : Bytes :=
+  if rooted then slash :: intercalate stk
+  else if stk = [] then dotSeg else intercalate stk
+
+/-- `filepath.Clean` -/
+def clean (p : Bytes) : Bytes := render (isAbs p) (stack p)
+
+/-- `filepath.Join(a, b)`: empty elements are ignored, the rest is joined with `/` and cleaned -/
+def join (a b : Bytes) : Bytes :=
+  if a = [] then (if b = [] then [] else clean b)
+  else clean (a ++ slash :: b)
+
+/-- `filepath.Dir` of a clean path -/
+def dirOf (p : Bytes) : Bytes :=
+  let stk := stack p
+  render (isAbs p) stk.dropLast
+
+/-- `base` is lexically inside (or equal to) `dir`: element-wise prefix of the cleaned stacks -/
+def Within (dir p : List Bytes) : Prop := ∃ ext, p = dir ++ ext
+
+def NoDotDot (ss : List Bytes) : Prop := ∀ s ∈ ss, s ≠ dotdot
+
+/-- Pushing elements none of which is `..` only ever extends the stack. -/
+theorem pushAll_extends (rooted : Bool) (ss : List Bytes) (stk : List Bytes) (h : NoDotDot ss) :
+    ∃ ext, pushAll rooted stk ss = stk ++ ext ∧ NoDotDot ext := by
+  induction ss generalizing stk with
+  | nil => exact ⟨[], by simp [pushAll], by intro s hs; cases hs⟩
+  | cons s ss ih =>
+    have hs : s ≠ dotdot := h s (by simp)
+    have hss : NoDotDot ss := fun t ht => h t (by simp [ht])
+    simp only [pushAll, List.foldl_cons]
+    by_cases h0 : s = [] ∨ s = dotSeg
+    · have : push rooted stk s = stk := by simp [push, h0]
+      rw [this]
+      exact ih stk hss
+    · have : push rooted stk s = stk ++ [s] := by simp [push, h0, hs]
+      rw [this]
+      obtain ⟨ext, he, hn⟩ := ih (stk ++ [s]) hss
+      refine ⟨s :: ext, ?_, ?_⟩
+      · simp only [pushAll] at he; rw [he]; simp
+      · intro t ht
+        cases ht with
+        | head => exact hs
+        | tail _ h' => exact hn t h'
+
+theorem hd_append (p : UInt8 → Bool) (a b : Bytes) (c : UInt8) (hc : p c = true) :
+    hd p (a ++ c :: b) = hd p a := by
+  induction a with
+  | nil => simp [hd, hc]
+  | cons x xs ih => simp only [List.cons_append, hd, ih]
+
+theorem tl_append (p : UInt8 → Bool) (a b : Bytes) (c : UInt8) (hc : p c = true) :
+    tl p (a ++ c :: b) = tl p a ++ splitOn p b := by
+  induction a with
+  | nil => simp [tl, hc, splitOn]
+  | cons x xs ih =>
+    simp only [List.cons_append, tl, ih, hd_append p xs b c hc]
+    split <;> simp
+
+/-- splitting `a ++ sep :: b` = splitting `a` followed by splitting `b` -/
+theorem splitOn_append (p : UInt8 → Bool) (a b : Bytes) (c : UInt8) (hc : p c = true) :
+    splitOn p (a ++ c :: b) = splitOn p a ++ splitOn p b := by
+  simp [splitOn, hd_append p a b c hc, tl_append p a b c hc]
+
+theorem sep2_of_slash (b : UInt8) (h : isSlash b = true) : isSep2 b = true := by
+  simp [isSep2, isSlash] at h ⊢; simp [h]
+
+/-- a first `/`-element without `/` or `\` in it is also the first element of the two-separator split -/
+theorem hd_refine (l : Bytes) (h : ∀ b ∈ hd isSlash l, isSep2 b = false) : hd isSep2 l = hd isSlash l := by
+  induction l with
+  | nil => rfl
+  | cons b bs ih =>
+    simp only [hd] at h ⊢
+    by_cases hb : isSlash b = true
+    · simp [hb, sep2_of_slash b hb]
+    · simp only [hb, Bool.false_eq_true, if_false] at h ⊢
+      have hb2 : isSep2 b = false := h b (by simp)
+      simp only [hb2, Bool.false_eq_true, if_false]
+      rw [ih (fun x hx => h x (by simp [hx]))]
+
+theorem dotdot_no_sep : ∀ b ∈ dotdot, isSep2 b = false := by decide
+
+theorem tl_refine (l : Bytes) (h : dotdot ∈ tl isSlash l) : dotdot ∈ tl isSep2 l := by
+  induction l with
+  | nil => simp [tl] at h
+  | cons b bs ih =>
+    simp only [tl] at h ⊢
+    by_cases hb : isSlash b = true
+    · simp only [hb, sep2_of_slash b hb, if_true, List.mem_cons] at h ⊢
+      rcases h with h | h
+      · left
+        rw [hd_refine bs (by rw [← h]; exact dotdot_no_sep)]
+        exact h
+      · right; exact ih h
+    · simp only [hb, Bool.false_eq_true, if_false] at h
+      have := ih h
+      split
+      · simp [this]
+      · exact this
+
+/-- **a path that `validateRelPath` accepts has no `..` element** when split on `/` -/
+theorem splitOn_slash_refines (l : Bytes) (h : dotdot ∈ splitOn isSlash l) : dotdot ∈ splitOn isSep2 l := by
+  simp only [splitOn, List.mem_cons] at h ⊢
+  rcases h with h | h
+  · left
+    rw [hd_refine l (by rw [← h]; exact dotdot_no_sep)]
+    exact h
+  · right; exact tl_refine l h
+
+theorem validate_noDotDot (maxLen : Nat) (p : Bytes) (h : validateRelPath maxLen p = none) : NoDotDot (segs p) := by
+  intro s hs he
+  subst he
+  have := splitOn_slash_refines p hs
+  simp only [validateRelPath] at h
+  split at h
+  · cases h
+  · split at h
+    · cases h
+    · rename_i hn
+      simp only [hasParentSeg, List.any_eq_true, beq_iff_eq, not_exists, not_and] at hn
+      exact hn dotdot this rfl
+
+/-! ### what the receiver touches -/
+
+/-- `stack (a ++ "/" ++ b)` for a non-empty `a` = push the elements of `b` onto the stack of `a` -/
+theorem stack_join (a b : Bytes) (ha : a ≠ []) :
+    stack (a ++ slash :: b) = pushAll (isAbs a) (stack a) (segs b) := by
+  have habs : isAbs (a ++ slash :: b) = isAbs a := by
+    cases a with
+    | nil => exact absurd rfl ha
+    | cons x xs => rfl
+  simp only [stack, segs, habs, splitOn_append isSlash a b slash (by decide), pushAll, List.foldl_append]
+
+/-- **Within_join.** Joining a relative path without `..` elements onto a directory stays inside it. -/
+theorem within_join (a b : Bytes) (ha : a ≠ []) (hb : NoDotDot (segs b)) :
+    Within (stack a) (stack (a ++ slash :: b)) := by
+  rw [stack_join a b ha]
+  obtain ⟨ext, he, _⟩ := pushAll_extends (isAbs a) (segs b) (stack a) hb
+  exact ⟨ext, he⟩
+
+theorem within_trans {a b c : List Bytes} (h1 : Within a b) (h2 : Within b c) : Within a c := by
+  obtain ⟨e1, rfl⟩ := h1
+  obtain ⟨e2, rfl⟩ := h2
+  exact ⟨e1 ++ e2, by simp⟩
 
 end TV.Path
